@@ -638,6 +638,7 @@ func TestC08(t *testing.T) {
 	c08Sack(t, rep, orc, env.Thorough())
 	c08PublicIP(t, rep, rng, env.Scale(60, 1000))
 	c08Rdns(t, rep, rng, env.Scale(40, 600))
+	c08MultiStream(t, rep, rng.Fork(), env.Scale(250, 4000))
 
 	if rep.Failed() {
 		t.Fail()
